@@ -180,9 +180,11 @@ func (s *Stream) close(status int32) error {
 	if status != StreamReplaced {
 		status = StreamClosed
 	}
-	atomic.StoreInt32(&s.status, status)
-	// 已关闭的流不应再被查找到(管理接口删除、空闲关闭等路径只调用 close)
+	// 已关闭的流不应再被查找到(管理接口删除、空闲关闭等路径只调用 close)。
+	// 先从注册表摘除、再置状态：并发的另一个 Close 一旦看到"已关闭"就直接返回，
+	// 那时流必须已经查找不到(否则 Close 返回之后 Get 仍会返回这个已关闭的流)
 	streams.CompareAndDelete(s.path, s)
+	atomic.StoreInt32(&s.status, status)
 	verifhook.Point("media.close.marked", s)
 
 	// 关闭 hls
